@@ -183,7 +183,10 @@ def main(tier):
             w = _same_entries(norm(real["entries"]), mod["entries"], states, lambda k: ck.count("compose.tie." + k))
             if w is None and real["lastw"] != mod["lastw"]:
                 w = "lastw %d vs %d" % (real["lastw"], mod["lastw"])
-            if w is not None:
+            if w == map_check.ALGEBRA:
+                ck.count("compose.tie." + map_check.ALGEBRA)
+                w = None
+            elif w is not None:
                 ties.append(({"be": be, "stmts": p1["stmts"] + [["--then--"]] + p2["stmts"]}, noal, mt, "m1 >> m2: " + w, real, mod))
             else:
                 ck.count("compose.tie.agree")
